@@ -104,7 +104,49 @@ def export(dom, tier='quick'):
         r['_label'] = lab
         r['_cost'] = (r['n'] + 1) * (len(r['stabs']) + 1)
         recs.append(r)
+    # code objects AFTER they have served simulations (direct and splitting method,
+    # noise with and without an X component: the splitting chains start from a
+    # logical operator of the code): still the valid code they were
+    for name, size, noise in used_subjects(tier):
+        lab = f'{codes.label(name, size, None, None)} after simulations ({noise})'
+        try:
+            r = codes.project(used_code(name, size, noise))
+        except Exception as ex:
+            r = {'n': 0, 'k': 0, 'd': 0, 'stabs': [], 'lx': [], 'lz': [],
+                 'raised': repr(ex)[:200]}
+        r['id'] = len(recs)
+        r['_label'] = lab
+        r['_cost'] = (r['n'] + 1) * (len(r['stabs']) + 1)
+        recs.append(r)
     return recs
+
+
+def used_subjects(tier):
+    out = []
+    for name, size in (('Toric2DCode', (4, 4)), ('Planar2DCode', (3, 4)), ('RotatedPlanar2DCode', (3, 3)),
+                       ('Toric2DCode', (3, 4))):
+        for noise in ('Z', 'X', 'depol'):
+            out.append((name, size, noise))
+    return out if tier != 'quick' else out[:9]
+
+
+def used_code(name, size, noise):
+    import contextlib
+    import io
+    import numpy as np
+    from panqec.error_models import PauliErrorModel
+    from panqec.decoders import MatchingDecoder
+    from panqec.simulation import DirectSimulation, SplittingSimulation
+    code = codes.build(name, size)
+    em = {'Z': PauliErrorModel(0, 0, 1), 'X': PauliErrorModel(1, 0, 0),
+          'depol': PauliErrorModel(1 / 3, 1 / 3, 1 / 3)}[noise]
+    with contextlib.redirect_stdout(io.StringIO()), np.errstate(all='ignore'):
+        DirectSimulation(code, em, MatchingDecoder(code, em, 0.2), 0.2, verbose=False,
+                         rng=np.random.default_rng(1)).run(5)
+        sim = SplittingSimulation(code, em, [MatchingDecoder(code, em, 0.3)], [0.3], n_init_runs=1,
+                                  verbose=False)
+        sim._run(40)
+    return code
 
 
 def run(tier):
